@@ -109,3 +109,41 @@ pub fn export(db: &ReflectionDatabase, out: &mut dyn Write) {
     serde_json::to_writer(&mut *out, &doc).unwrap();
     out.write_all(b"\n").unwrap();
 }
+
+/// The answers of rbx_reflection's own lookup functions, one line per class, for ReflectionLookupTrace.tla:
+/// the superclass chain (`superclasses`, `superclasses_iter`), `has_superclass` against every class on and one
+/// class off the chain, and `find_default_property` for every name that has a default anywhere on the chain
+/// plus one name that has none.
+pub fn export_lookups(db: &ReflectionDatabase, out: &mut dyn Write) {
+    let refs = pval::RefMap::new();
+    let mut names: Vec<&str> = db.classes.keys().map(|k| k.as_ref()).collect();
+    names.sort();
+    for (i, cname) in names.iter().enumerate() {
+        let class = &db.classes[*cname];
+        let chain: Vec<String> = db.superclasses(class).map(|v| v.iter().map(|c| c.name.to_string()).collect()).unwrap_or_default();
+        let chain_iter: Vec<String> = db.superclasses_iter(class).map(|c| c.name.to_string()).collect();
+        let mut wanted: Vec<String> = Vec::new();
+        for c in db.superclasses_iter(class) {
+            for n in c.default_properties.keys() {
+                if !wanted.iter().any(|w| w == n.as_ref()) {
+                    wanted.push(n.to_string());
+                }
+            }
+        }
+        wanted.sort();
+        wanted.push("VerifNoSuchProperty".to_string());
+        let defaults: Vec<Value> = wanted
+            .iter()
+            .map(|n| match db.find_default_property(class, n) {
+                Some(v) => json!([n, pval::pval(v, &refs)]),
+                None => json!([n, {"t": "none"}]),
+            })
+            .collect();
+        let other = names[(i * 7 + 3) % names.len()];
+        let mut isa: Vec<Value> = chain_iter.iter().map(|s| json!([s, db.has_superclass(class, &db.classes[s.as_str()]) as u8])).collect();
+        isa.push(json!([other, db.has_superclass(class, &db.classes[other]) as u8]));
+        let ev = json!({"ep": format!("lookup:{}", cname), "class": cname, "chain": chain, "chain_iter": chain_iter, "isa": isa, "defaults": defaults});
+        serde_json::to_writer(&mut *out, &ev).unwrap();
+        out.write_all(b"\n").unwrap();
+    }
+}
